@@ -91,6 +91,9 @@ def kinds():
                              "exp": (lambda addr: b"\x01\x07\x08\x09" + pad_to(addr + 4, 2))}
     K["incdeep"] = lambda i: {"text": ".include \"incdeep.mac\"", "defs": [],
                               "exp": (lambda addr: b"\x01\x07\x08\x09" + pad_to(addr + 4, 2) + b"\x02")}
+    # several chunks in one '.rad50': the characters of all chunks are packed together, three to a word
+    K["rad2c"] = lambda i: {"text": ".rad50 /AB/<35>", "exp": (lambda addr: w((1 * 40 + 2) * 40 + 29)), "defs": []}
+    K["rad2f"] = lambda i: {"text": ".rad50 /AB/<fk%d>/CD/" % i, "exp": (lambda addr: w((1 * 40 + 2) * 40 + 29) + w((3 * 40 + 4) * 40)), "defs": ["fk%d = 35" % i]}
     K["incpa"] = lambda i: {"text": ".include \"incpa.mac\"", "exp": (lambda addr: b"\x03abcde\x00"), "defs": []}
     K["reppa"] = lambda i: {"text": ".repeat 2 { .byte fz%d\n .ascii \"ab\" }" % i, "exp": (lambda addr: b"\x03ab" * 2), "defs": ["fz%d = 3" % i]}
     # file names with a <n> chunk that is only known later: the statement cannot be carried out when it is first met
@@ -109,7 +112,7 @@ def kinds():
 
 
 KINDS = kinds()
-ORDER = ["nop", "mov4", "mov6", "byte1", "byte3", "word", "dword", "wlist", "worddot", "word0", "dword0", "byte0", "ascii2", "ascii3", "asciz2", "rad50",
+ORDER = ["nop", "mov4", "mov6", "byte1", "byte3", "word", "dword", "wlist", "worddot", "word0", "dword0", "byte0", "ascii2", "ascii3", "asciz2", "rad50", "rad2c", "rad2f",
          "blkb3", "blkw2", "blkbf", "blkwf", "even", "odd", "align4", "alignf", "skip5", "skipf",
          "rep2nop", "repeven", "repf", "rep3even", "rep4dot", "ins0", "ins5", "inc2", "incinc", "incdeep", "incpa", "reppa", "incf", "insf", "label", "assign"]
 assert set(ORDER) == set(KINDS)
